@@ -82,7 +82,7 @@ def run(ctx):
     units = [1.0, 2.0 ** -10, 1.0, 2.0 ** -14, 2.0 ** 8][i % 5]     # the 1% budget test is relative: it does not depend on the unit
     data = dict(data, X=data['X'] * units)
     ctx.hist('units.log2', int(np.log2(units)))
-    kw = dict(max_iter=int(rng.choice([1, 3, 10, 40])), max_proj=20000, tol=float(rng.choice([1e-3, 1e-6])),
+    kw = dict(max_iter=int(rng.choice([1, 3, 10, 40])), max_proj=20000, tol=float(rng.choice([1e-3, 1e-6, 1e-3, 0.05, 0.1, 0.3])),      # the 1% projection tolerance does not depend on tol
               init=initk if initk != 'array' else fits.spd_array(rng, d), random_state=int(rng.integers(0, 100)),
               diagonal=diagonal, diagonal_c=float(rng.choice([0.1, 1.0, 10.0])))
     if name == 'MMC_Supervised':
@@ -189,12 +189,14 @@ def run(ctx):
   # ---- diagonal variant started from a matrix that is not diagonal (covariance / random / array): the learned matrix is
   # diagonal with non-negative entries whatever the initial matrix held; a NaN is reported by ValueError, nothing else is raised
   from metric_learn.exceptions import NonPSDError
-  for j in range(24 if thorough else 12):
+  for j in range(32 if thorough else 16):
     name = ['MMC', 'MMC_Supervised'][j % 2]
     data = fits.make_data(rng, d=int(rng.integers(2, 5)))
     d = data['d']
-    initk = ['covariance', 'random', 'array'][j // 2 % 3]
-    kw = dict(max_iter=int(rng.choice([3, 10, 40])), init=initk if initk != 'array' else fits.spd_array(rng, d) + 1.0,
+    initk = ['covariance', 'random', 'array', 'singular array'][j // 2 % 4]
+    sing = np.diag([1.0] + [0.0] * (d - 1)) if j % 4 < 2 else np.zeros((d, d))     # PSD, singular: legal for MMC's init
+    kw = dict(max_iter=int(rng.choice([3, 10, 40])),
+              init=initk if initk in ('covariance', 'random') else (fits.spd_array(rng, d) + 1.0 if initk == 'array' else sing),
               random_state=int(rng.integers(0, 100)), diagonal=True, diagonal_c=float([1000.0, 100.0, 10.0, 1.0][j // 6 % 4]))
     if name == 'MMC_Supervised':
       kw['n_constraints'] = int(rng.integers(8, 30))
